@@ -124,8 +124,10 @@ class KernExporter(object):
                 list(self.part.iter_all(start=start_time, end=end_time)), dtype=object
             )
             # Find notes
+            # (boolean also when nothing starts at this time point)
             note_mask = np.array(
-                [isinstance(el, spt.GenericNote) for el in elements_starting]
+                [isinstance(el, spt.GenericNote) for el in elements_starting],
+                dtype=bool,
             )
             if np.any(~note_mask):
                 bar_mask = np.array(
